@@ -33,6 +33,11 @@ EXTRA_INPUTS = [
     ("transform", _p("ok_rtf_key.xsl"), _p("s1.xml")),
     ("transform", _p("ext_ns_once.xsl"), _p("s1.xml")),
     ("compile", _p("ext_ns_twice.xsl"), _p("s1.xml")),
+    # bounded caches with an eviction branch (seed C19_e): more distinct xsl:decimal-format symbol sets / sort languages
+    # in one transformer than the ICU bridge caches hold (eCacheMax = 10), each used twice
+    ("transform", _p("many_decimal_formats.xsl"), _p("s1.xml")),
+    ("transform", _p("many_sort_langs.xsl"), _p("s1.xml")),
+    ("two", _p("many_decimal_formats.xsl"), _p("s1.xml")),
 ]
 
 # inputs in the class of a known finding of the no-injection balance run: {stylesheet basename: finding id}
